@@ -5,6 +5,7 @@ CONSTANTS
  NMs <- NMt
  Ls = {0, 1, 3}
  Os = {1, 2, 4}
+ ModeLs = {0, 1, 2, 4}
  Extras = {0, 1, 3}
 INVARIANT FixedWidth
 INVARIANT Lossless
